@@ -1,6 +1,6 @@
 (* C03 — Container edits are applied to the OCI spec with the documented semantics. *)
 From Coq Require Import String Ascii List Bool Arith ZArith.
-From CDI Require Import Base SpecModel Paths Oci Apply ApplySpec ApplyProofs.
+From CDI Require Import Base SpecModel Paths Oci Apply ApplySpec ApplyProofs CleanProofs DepthProofs.
 Import ListNotations.
 Open Scope string_scope.
 
@@ -43,6 +43,16 @@ Theorem C03_stable_sort_unique : forall l1 l2,
   sorted_by_depth l1 = true -> sorted_by_depth l2 = true -> (forall k, depth_class k l1 = depth_class k l2) -> l1 = l2.
 Proof. intros l1 l2 H1 H2. apply stable_sort_unique; apply sorted_by_depth_srt; assumption. Qed.
 Print Assumptions C03_stable_sort_unique.
+
+(* "parents before children": the depth of an absolute destination is its number of components (the root counts one), a
+   proper non-root ancestor directory is strictly shallower than anything below it, and therefore never placed after it *)
+Theorem C03_depth_is_component_count : forall p, is_rooted p = true -> abs_depth p = Nat.max 1 (length (snd (norm p))).
+Proof. exact depth_abs. Qed.
+Print Assumptions C03_depth_is_component_count.
+Theorem C03_parents_before_children : forall (l : list ocimount) a y b x,
+  sorted_by_depth l = true -> l = (a ++ y :: b)%list -> In x b -> ~ proper_ancestor (om_dest x) (om_dest y).
+Proof. exact parents_before_children. Qed.
+Print Assumptions C03_parents_before_children.
 
 (* replace-by-key steps (device paths, mount destinations) on lists with unique keys *)
 Theorem C03_devices_closed_form : forall l devs, nodup_s (map od_path l) = true ->
